@@ -144,6 +144,16 @@ func VerifHarness_C16_listing() {
 	}
 	start := vPick("start", 0, L-1)
 	w := &warrior{data: &WarriorData{Name: "n", Author: "a", Code: code, Start: start}, sim: s}
+	if vParamOr("api", 0) == 1 {
+		// the warrior as the simulator holds it after it was added and
+		// loaded into the core at an arbitrary address
+		aw, err := s.AddWarrior(&WarriorData{Name: "n", Author: "a", Code: code, Start: start})
+		vAssert("add-ok", err == nil)
+		// (a few concrete addresses: the listing must not depend on it at all)
+		off := []Address{0, 1, 2, M - 1}[vPick("off", 0, 3)]
+		vAssert("spawn-ok", s.SpawnWarrior(0, off) == nil)
+		w = aw.(*warrior)
+	}
 	vPrune(false)
 	text := w.LoadCode()
 	got, gstart, nStart, ok := vReadListing(text, legacy, M)
